@@ -243,11 +243,13 @@ class ModeDevice(SimDevice):
 
 # ------------------------------------------------------------------ a device swapped behind a reconnect; failing reconnects in uiHeartbeat
 
-@obligation(tier="quick", parts=3, timeout=200, part_names=["ledger", "tcp", "sgx"],
-            bounds="blockchainParameters and blockchainState queried, the device replaced by another one (checkpoint / network / difficulty "
-                   "/ hash bytes symbolic for both), a link error, and the queries repeated after the repair: the second answers are the second "
-                   "device's data; platform classes HSM2Dongle / HSM2DongleTCP / HSM2DongleSGX (partition)",
-            examples=[(0, dict(a=1, b=2, n1=1, n2=3)), (1, dict(a=9, b=9, n1=2, n2=2)), (2, dict(a=0, b=255, n1=3, n2=1))])
+@obligation(tier="quick", parts=6, timeout=200, part_names=["ledger", "tcp", "sgx", "ledger/v1", "tcp/v1", "sgx/v1"],
+            bounds="getPubKey, blockchainParameters and blockchainState queried (legacy v1 mode: getPubKey of two paths), the device replaced by "
+                   "another one (key / checkpoint / network / difficulty / hash bytes symbolic for both), a link error, and the queries repeated "
+                   "after the repair: the second answers are the second device's data; platform classes HSM2Dongle / HSM2DongleTCP / "
+                   "HSM2DongleSGX and protocol mode (partitions)",
+            examples=[(0, dict(a=1, b=2, n1=1, n2=3)), (1, dict(a=9, b=9, n1=2, n2=2)), (2, dict(a=0, b=255, n1=3, n2=1)),
+                      (3, dict(a=1, b=2, n1=1, n2=3)), (5, dict(a=7, b=8, n1=1, n2=1))])
 def swapped_device(a: int, b: int, n1: int, n2: int) -> bool:
     """
     pre: 0 <= a <= 255 and 0 <= b <= 255
@@ -255,29 +257,45 @@ def swapped_device(a: int, b: int, n1: int, n2: int) -> bool:
     post: _
     """
     from sim.base import raise_fault, FAULT_READ
-    platform = ["ledger", "tcp", "sgx"][part()]
+    platform = ["ledger", "tcp", "sgx"][part() % 3]
+    v1 = part() >= 3
+
+    def keyof(x, j):
+        return [4, x] + [0x30 + j] * 62 + [x]
 
     def device(x, net):
         d = SimDevice()
         d.params = [x] + [0x5a] * 31 + [0] * 35 + [x] + [net]
         d.hashes = {sel: [x] * 32 for (_, sel) in STATE_FIELDS}
         d.difficulty = [x, 1]
+        d.pubkeys = {tuple(path_bytes(p)): keyof(x, j) for j, p in enumerate(KEY_PATHS)}
         return d
 
+    def key_query(proto, j):
+        return handle(proto, {"command": "getPubKey", "version": 1 if v1 else 5, "keyId": KEY_PATHS[j]})
+
     def query(proto):
+        k0, k1 = key_query(proto, 0), key_query(proto, 3)
+        if v1:
+            return k0, k1, None, None
         p = handle(proto, valid_request("blockchainParameters"))
         s = handle(proto, valid_request("blockchainState"))
-        return p, s
+        return k0, k1, p, s
 
-    def expect(p, s, x, net):
+    def expect(r, x, net):
+        k0, k1, p, s = r
+        for (k, j) in ((k0, 0), (k1, 3)):
+            if not (k[0] == "reply" and k[1].get("errorcode") == 0 and k[1].get("pubKey") == hexof(keyof(x, j))):
+                return False
+        if v1:
+            return True
         return p[0] == "reply" and p[1].get("errorcode") == 0 and p[1]["parameters"]["checkpoint"] == hexof([x] + [0x5a] * 31) \
             and p[1]["parameters"]["minimum_difficulty"] == x and p[1]["parameters"]["network"] == NETWORKS[net] \
             and s[0] == "reply" and s[1].get("errorcode") == 0 and s[1]["state"]["best_block"] == hexof([x] * 32) \
             and s[1]["state"]["updating"]["total_difficulty"] == x * 256 + 1
     d1 = device(a, n1)
-    proto, dongle, world = make_stack(d1, platform=platform)
-    p, s = query(proto)
-    if not expect(p, s, a, n1):
+    proto, dongle, world = make_stack(d1, platform=platform, v1=v1)
+    if not expect(query(proto), a, n1):
         return False
     # the device is unplugged and another one is plugged in
     world.device = device(b, n2)
@@ -288,10 +306,9 @@ def swapped_device(a: int, b: int, n1: int, n2: int) -> bool:
             st["armed"] = False
             raise_fault(FAULT_READ)
     world.fault_hook = hook
-    if handle(proto, valid_request("blockchainParameters")) != ("reply", {"errorcode": -905}):
+    if key_query(proto, 0) != ("reply", {"errorcode": -2 if v1 else -905}):
         return False
-    p, s = query(proto)
-    return expect(p, s, b, n2)
+    return expect(query(proto), b, n2)
 
 
 @obligation(tier="quick", timeout=120,
